@@ -432,7 +432,7 @@ func replayRules(c *Ctx, which string) {
 				oc.Fail(ret.Pos(), "a number is accepted on a path that has not established seq <= maxSeq")
 			}
 			if !d.wrapped {
-				newer := pf.hasIneq(seq.add(L, -1)) // seq > latest
+				newer := pf.hasIneq(seq.add(L, -1))           // seq > latest
 				inWin := pf.hasIneq(W.add(seq, 1).add(L, -1)) // latest < window+seq
 				dist := L.add(seq, -1)
 				if accepts && !newer {
@@ -507,9 +507,9 @@ func replayRules(c *Ctx, which string) {
 				continue
 			}
 			tooOld := pf.hasIneq(diffCell.add(W, -1).add(linConst(1), 1)) // diff >= W
-			inWin := pf.hasIneq(W.add(diffCell, -1))                    // diff < W
-			nonNeg := pf.hasIneq(diffCell.add(linConst(1), 1))          // diff >= 0
-			neg := pf.hasIneq(diffCell.scale(-1))                        // diff < 0
+			inWin := pf.hasIneq(W.add(diffCell, -1))                      // diff < W
+			nonNeg := pf.hasIneq(diffCell.add(linConst(1), 1))            // diff >= 0
+			neg := pf.hasIneq(diffCell.scale(-1))                         // diff < 0
 			if accepts {
 				if !inWin {
 					oc.Fail(ret.Pos(), "a number is accepted without the too-old test diff < windowSize")
